@@ -915,6 +915,7 @@ func RandKey(r *rand.Rand) string {
 // Texts is the corpus of metadata strings (valid UTF-8).
 var Texts = []string{
 	"hello", "a b c", "x", "0", "123", "1e3", "0x10", "yes", "no", "null", "~", "true", "on", "off",
+	"007", "01", "00", "0010", "1_000", "+1", "1.0", ".5", "0o17", "0b1", "12:30", "2001-12-14", "\"quoted\"", "'single'", "'n' roll",
 	": colon", "# hash", "- dash", "? q", "* star", "& amp", "! bang", "| pipe", "> gt", "' quote", "\" dq", "% pct", "@ at", "` tick",
 	"key: value", "a #b", "[x]", "{y}", "a, b", "a=b", "trailing ", "  leading", "tab\there", "line\nbreak", "cr\r\nlf",
 	"日本語のテキスト", "émoji 😀 ok", "é combining", " nbsp", " ls", "Ünïcödé", "ﬃ ligature", "\U0001d11e clef",
@@ -1044,6 +1045,15 @@ func RandPiece(r *rand.Rand, o GenOpts) Piece {
 						}
 					}
 				}
+			}
+			// free metadata of a chord text whose names resemble the settings (the settings are bpm, vel, mtr, key - spelled
+			// exactly so): they stay free metadata
+			if o.TextSafe && o.TextProb > 0 && r.Intn(8) == 0 {
+				if in.Meta == nil {
+					in.Meta = map[string]string{}
+				}
+				kv := [][2]string{{"meter", "3/4"}, {"velocity", "ff"}, {"Key", "Em"}, {"KEY", "F#m"}, {"Bpm", "77"}, {"tempo", "90"}, {"Vel", "pp"}, {"Mtr", "6/8"}, {"BPM", "200"}, {"keys", "D"}}[r.Intn(10)]
+				in.Meta[kv[0]] = kv[1]
 			}
 			// metadata entries that are spelled like settings: in an instances document only the fields of an
 			// instance are settings, the metadata map is free text (chord text is different: there {key=G} is the setting)
